@@ -108,6 +108,11 @@ class Ctx:
         inside Hypothesis raise so that it shrinks; outside (enumerations) record directly."""
         if signature in self.known:
             self.known_hits[signature] += 1
+            if os.environ.get("VERIF_SAVE_KNOWN"):  # maintenance aid: capture a reproducer for the regress tier
+                rp = os.path.join(HOME, self.known[signature].get("replay", ""))
+                if rp.endswith(".json") and not os.path.exists(rp):
+                    with open(rp, "w") as f:
+                        json.dump({"property": self.pid, "signature": signature, "message": "known finding", "case": jsonable(spec)}, f, indent=1)
             return
         if signature in self.excluded:
             self.hist["excluded:" + signature] += 1
